@@ -37,6 +37,7 @@ var commands = map[string]func([]string){
 	"quote-one":      cmdQuoteOne,
 	"fold-groups":    cmdFoldGroups,
 	"fold-text":      cmdFoldText,
+	"fold-docs":      cmdFoldDocs,
 	"sql-read":       cmdSQLRead,
 	"sql-cases":      cmdSQLCases,
 	"json-docs":      cmdJSONDocs,
